@@ -92,8 +92,8 @@ func normRead(v interface{}, err error) readResult {
 
 type shardedBE struct{ c *cache.ShardedMap }
 
-func (b *shardedBE) Kind() string                              { return kindSharded }
-func (b *shardedBE) Generic() bool                             { return false }
+func (b *shardedBE) Kind() string                                  { return kindSharded }
+func (b *shardedBE) Generic() bool                                 { return false }
 func (b *shardedBE) Read(ctx context.Context, k []byte) readResult { return normRead(b.c.Read(ctx, k)) }
 func (b *shardedBE) Write(ctx context.Context, k []byte, v interface{}) error {
 	return b.c.Write(ctx, k, v)
@@ -105,23 +105,23 @@ func (b *shardedBE) Len() int                                   { return b.c.Len
 func (b *shardedBE) Walk(fn func(key []byte, val interface{}, exp time.Time) error) (int, error) {
 	return b.c.Walk(func(e cache.Entry) error { return fn(e.Key(), e.Value(), e.ExpireAt()) })
 }
-func (b *shardedBE) HasLoadStore() bool                  { return true }
-func (b *shardedBE) Load(k []byte) (interface{}, bool)   { return b.c.Load(k) }
-func (b *shardedBE) Store(k []byte, v interface{})       { b.c.Store(k, v) }
-func (b *shardedBE) Dump(w io.Writer) (int, error)       { return b.c.Dump(w) }
-func (b *shardedBE) Restore(r io.Reader) (int, error)    { return b.c.Restore(r) }
-func (b *shardedBE) Cleanup()                            { b.c.VerifCleanup() }
-func (b *shardedBE) Close()                              { b.c.VerifClose() }
-func (b *shardedBE) Index() *cache.InvalidationIndex     { return b.c.InvalidationIndex }
-func (b *shardedBE) Deleter() cache.Deleter              { return b.c }
-func (b *shardedBE) Raw() interface{}                    { return b.c }
+func (b *shardedBE) HasLoadStore() bool                { return true }
+func (b *shardedBE) Load(k []byte) (interface{}, bool) { return b.c.Load(k) }
+func (b *shardedBE) Store(k []byte, v interface{})     { b.c.Store(k, v) }
+func (b *shardedBE) Dump(w io.Writer) (int, error)     { return b.c.Dump(w) }
+func (b *shardedBE) Restore(r io.Reader) (int, error)  { return b.c.Restore(r) }
+func (b *shardedBE) Cleanup()                          { b.c.VerifCleanup() }
+func (b *shardedBE) Close()                            { b.c.VerifClose() }
+func (b *shardedBE) Index() *cache.InvalidationIndex   { return b.c.InvalidationIndex }
+func (b *shardedBE) Deleter() cache.Deleter            { return b.c }
+func (b *shardedBE) Raw() interface{}                  { return b.c }
 
 // --- SyncMap
 
 type syncBE struct{ c *cache.SyncMap }
 
-func (b *syncBE) Kind() string                              { return kindSync }
-func (b *syncBE) Generic() bool                             { return false }
+func (b *syncBE) Kind() string                                  { return kindSync }
+func (b *syncBE) Generic() bool                                 { return false }
 func (b *syncBE) Read(ctx context.Context, k []byte) readResult { return normRead(b.c.Read(ctx, k)) }
 func (b *syncBE) Write(ctx context.Context, k []byte, v interface{}) error {
 	return b.c.Write(ctx, k, v)
@@ -133,16 +133,16 @@ func (b *syncBE) Len() int                                   { return b.c.Len() 
 func (b *syncBE) Walk(fn func(key []byte, val interface{}, exp time.Time) error) (int, error) {
 	return b.c.Walk(func(e cache.Entry) error { return fn(e.Key(), e.Value(), e.ExpireAt()) })
 }
-func (b *syncBE) HasLoadStore() bool                { return false }
-func (b *syncBE) Load([]byte) (interface{}, bool)   { panic("no Load") }
-func (b *syncBE) Store([]byte, interface{})         { panic("no Store") }
-func (b *syncBE) Dump(w io.Writer) (int, error)     { return b.c.Dump(w) }
-func (b *syncBE) Restore(r io.Reader) (int, error)  { return b.c.Restore(r) }
-func (b *syncBE) Cleanup()                          { b.c.VerifCleanup() }
-func (b *syncBE) Close()                            { b.c.VerifClose() }
-func (b *syncBE) Index() *cache.InvalidationIndex   { return b.c.InvalidationIndex }
-func (b *syncBE) Deleter() cache.Deleter            { return b.c }
-func (b *syncBE) Raw() interface{}                  { return b.c }
+func (b *syncBE) HasLoadStore() bool               { return false }
+func (b *syncBE) Load([]byte) (interface{}, bool)  { panic("no Load") }
+func (b *syncBE) Store([]byte, interface{})        { panic("no Store") }
+func (b *syncBE) Dump(w io.Writer) (int, error)    { return b.c.Dump(w) }
+func (b *syncBE) Restore(r io.Reader) (int, error) { return b.c.Restore(r) }
+func (b *syncBE) Cleanup()                         { b.c.VerifCleanup() }
+func (b *syncBE) Close()                           { b.c.VerifClose() }
+func (b *syncBE) Index() *cache.InvalidationIndex  { return b.c.InvalidationIndex }
+func (b *syncBE) Deleter() cache.Deleter           { return b.c }
+func (b *syncBE) Raw() interface{}                 { return b.c }
 
 // --- ShardedMapOf[string]
 
